@@ -196,6 +196,12 @@ def gen_c10(rng, idx, tier, faults):
         if patch:
             ops.append({"op": "SET", "obj": "e0", "params": patch})
             ops.append({"op": "FIT", "obj": "e0", "env": env0, "refit": True, "reparam": True})
+    if rng.random() < 0.12 and not any(o["op"] in ("MUTATE", "SET") for o in ops) and xs.get("storage", "C") != "readonly" and (cv is None or cv["type"] != "generator"):
+        # a shallow copy of the fitted estimator is refitted on a new batch in the same buffer;
+        # the original is read again at the end of the trace
+        ops.append({"op": "FORK", "obj": "e0c", "from": "e0"})
+        ops.append({"op": "MUTATE", "seed": _seed(rng)})
+        ops.append({"op": "FIT", "obj": "e0c", "env": env0, "refit": True})
     if rng.random() < 0.3:
         ops.append({"op": "PREDICT_AFTER_REFILL", "seed": _seed(rng)})
     return {"heap": heap, "y": ydef, "ops": ops, "predict_seed": _seed(rng)}
@@ -386,6 +392,15 @@ class RidgeWorld:
                         self.log.add("SET", op["obj"], sorted(op["params"]))
                     except Exception as e:  # noqa: BLE001
                         self.violate("set_params_raises", f"{type(e).__name__}: {e}")
+                elif op["op"] == "FORK":
+                    # the caller takes a shallow copy of a fitted estimator and keeps using both
+                    src = getattr(self, "ests", {}).get(op["from"])
+                    if src is not None and hasattr(src, "coef_"):
+                        import copy as _copy
+
+                        self.ests[op["obj"]] = _copy.copy(src)
+                        news[op["obj"]] = dict(news.get(op["from"], self.cur), obj=op["obj"])
+                        self.stats["fired"]["restart:shallow_copy_fork"] += 1
                 elif op["op"] == "PREDICT_AFTER_REFILL":
                     # at the very end: the caller refills the buffer it had fitted on with a new
                     # batch and asks every fitted estimator for predictions on it
@@ -418,6 +433,11 @@ class RidgeWorld:
             # what every estimator reported at its last fit is still what it reports after all
             # the other estimators of the process were fitted (no fitted state shared between
             # objects - pooled work arrays, module-level caches)
+            for nm, grids in sorted(getattr(self, "caller_grids", {}).items()):
+                for g in grids:
+                    # the caller refills the grid array it had passed in (the next, finer grid)
+                    g[...] = g[::-1] * 0.37 + 0.011
+                    self.stats["fired"]["caller:grid_array_reused"] += 1
             for nm, (cvv0, a0, b0, c0) in sorted(getattr(self, "last_reported", {}).items()):
                 est = self.ests.get(nm)
                 if est is None or nm in getattr(self, "refilled_predict_done", ()):
@@ -507,6 +527,10 @@ class RidgeWorld:
             # (only reduced traces get here; the generator never emits it)
             self.count("out_of_domain_seed_without_shuffle")
             return
+        if isinstance(kw.get("alphas"), np.ndarray) and kw["alphas"].flags.writeable and kw["alphas"].dtype.kind == "f":
+            if not hasattr(self, "caller_grids"):
+                self.caller_grids = {}
+            self.caller_grids.setdefault(new["obj"], []).append(kw["alphas"])  # the caller keeps its grid array
         if not hasattr(self, "ests"):
             self.ests = {}
         est = self.ests.get(new["obj"])
@@ -785,7 +809,7 @@ class RidgeWorld:
         """The same configuration under different task schedules must give the same
         numbers (when the folds do not depend on the ambient RNG)."""
         # (e9 is the unrelated earlier estimator with other fold parameters, not a lane)
-        names = sorted(n for n in self.results if n != "e9")
+        names = sorted(n for n in self.results if n != "e9" and not n.endswith("c"))  # (nor the shallow copy)
         if len(names) < 2:
             return
         a = self.results[names[0]]
